@@ -1,5 +1,5 @@
 SPECIFICATION FairSpec
-CONSTANTS Cap = 1  Payload = 2  Variant = "run_process"  Drain = TRUE  CloseAll = TRUE  Timeout = TRUE  Escalate = FALSE  DtorSig = "KILL"  ProgName = "ignhang"
+CONSTANTS Cap = 1  Payload = 0  Variant = "abandon"  Drain = TRUE  CloseAll = TRUE  Timeout = FALSE  Escalate = TRUE  DtorSig = "KILL"  ProgName = "both"
 CONSTANT Prog <- MCProg
 INVARIANTS OutputComplete StatusExact Reaped AllFdsClosed StdinDelivered NoThrowUnlessEpipe TimeoutEnds
 PROPERTY Termination
